@@ -392,7 +392,9 @@ func (tbls *TBLS) combineShares() []byte {
 	}
 
 	pk := c.GenG2.Mul(tbls.sk).Bytes()
+	tbls.lock.Lock()
 	tbls.publicKeysOfParties[tbls.Party] = pk
+	tbls.lock.Unlock()
 	return pk
 }
 
